@@ -16,6 +16,8 @@ THEOREMS = {
                                     "SchedNV.newWalk_below", "SchedNV.newWalk_stepping", "SchedNV.vecWalk_below", "SchedNV.vecWalk_stepping",
                                     "SchedNV.vecGridPoint_props", "SchedNV.searchLeft_spec"],
     "SpecKitV.Props.C03": ["ltfPlan_grid", "lpsdPlan_grid", "lpsd_is_ltf", "newPlan_grid", "vecPlan_grid", "vecPlan_increasing"],
+    "SpecKitV.Props.SchedGen": ["gen_ltf_round_eq", "gen_ltf_walk_eq_model", "gen_new_walk_eq_model"],
+    "SpecKitV.Props.Utils": ["gen_round_half_up_eq_model", "gen_round_half_up_eq_floor"],
 }
 CONTRACTS = ["np.logspace/np.searchsorted as modelled (10**linspace; count of grid points below the query)"]
 ASSUMPTIONS = ["float evaluation: r*L=fs and f[j+1]=f[j]+r[j] are checked to a few ulp on the real code; exact in the real-number theorems"]
